@@ -8,12 +8,15 @@ from ..pathcond import implied, rimplied
 import re
 
 MANIFEST = {
-    'technique': 'def-use / linear-form analysis of Stream.mix_from paths (every inlet H and Q reach the H sink), quantity-kind flow rule (solved temperatures flow only into T), read-before-mutate ordering, sign of the Newton/secant residuals',
-    'text': 'Decides for every input: on each energy-balance path of mix_from that leaves a non-empty receiver the enthalpy assigned is '
-            'sum(inlet H)+Q over the same filtered inlet list that feeds the material sum (the single-inlet path copies the inlet and adds Q), '
-            'P=min(P) over that list is stored before the solve; every value returned by (x)solve_T_at_HP/SP is stored into T (normal and '
-            'phase-switch fallback branch) of the H/h/S setters; separate_out reads both enthalpies before subtracting material and assigns after; '
-            'the iteration steps have the restoring sign. Convergence, tolerances and "assigning the current value leaves T unchanged" are not decided.',
+    'technique': 'def-use / linear-form analysis of Stream.mix_from paths (every inlet H and Q reach the H sink), quantity-kind flow rule (solved temperatures flow only '
+            'into T), read-before-mutate ordering, sign of the Newton/secant residuals; read-before-mutation reachability rule on the CFG of mix_from; must-pass '
+            'rule for copy_like',
+    'text': 'Decides for every input: on each energy-balance path of mix_from that leaves a non-empty receiver the enthalpy assigned is sum(inlet H)+Q over the '
+            'same filtered inlet list that feeds the material sum (the single-inlet path copies the inlet and adds Q), P=min(P) over that list is stored before the '
+            'solve; every value returned by (x)solve_T_at_HP/SP is stored into T (normal and phase-switch fallback branch) of the H/h/S setters; separate_out reads '
+            'both enthalpies before subtracting material and assigns after; the iteration steps have the restoring sign. In mix_from no statement that alters the '
+            "receiver can reach a read of the inlets' enthalpies (the receiver may be an inlet); copy_like, which single-inlet mixing delegates to, copies the "
+            'thermal condition on every normal path. Convergence, tolerances and "assigning the current value leaves T unchanged" are not decided.',
 }
 
 ST = 'thermosteam/_stream.py'
